@@ -99,7 +99,8 @@ pub fn set_input_field(i: &mut Input, f: &str, r: &mut Rng) {
         "non_witness_utxo" => i.non_witness_utxo = Some(small_tx(r)),
         "witness_utxo" => i.witness_utxo = Some(explicit_txout(r)),
         "partial_sigs" => { i.partial_sigs.insert(btc_pk(r), pools::rbytes(r, 71)); }
-        "sighash_type" => i.sighash_type = Some(if r.next_u32() & 1 == 0 { elements::EcdsaSighashType::SinglePlusAnyoneCanPay.into() } else { elements::SchnorrSighashType::None.into() }),
+        // raw values: taproot default (0), the standard flags, and values no enum names (the field is a plain u32 on the wire)
+        "sighash_type" => i.sighash_type = Some(elements::pset::PsbtSighashType::from_u32([0x00u32, 0x01, 0x02, 0x83, 0x04, 0x41, 0xff, 0x100, 0x8000_0001][(r.next_u32() % 9) as usize])),
         "redeem_script" => i.redeem_script = Some(script(r, 23)),
         "witness_script" => i.witness_script = Some(script(r, 40)),
         "bip32_derivation" => { i.bip32_derivation.insert(btc_pk(r), keysource(r, 3)); }
